@@ -133,7 +133,7 @@ def write_with_library(case, path):
 
 
 def check(case):
-    path = env.fresh_path(".gro")
+    path = env.fresh_path(".v2.final.gro" if len(case["records"]) % 2 else ".gro")    # dots in the name are legal
     recs = case["records"]
     d = 3 if case["format"] is None else case["format"]
     w = d + 5
@@ -152,10 +152,15 @@ def check(case):
             g = GroFile(path)
         try:
             recs_ = [next(g) for _ in range(g.natoms)] if how == "iterate" else g.readlines()
+            fmt_read[0] = tuple(g.position_format)
             return recs_, np.array(g.box_matrix, float), g.comment, g.natoms
         finally:
             g.close()
+    fmt_read = [None]
     got, box, comment, natoms = lib("read", rd)
+    if fmt_read[0] != (w, d):
+        raise PropertyViolation("format-readback", "file written with position format %r reports %r when read"
+                                % ((w, d), fmt_read[0]))
     if natoms != len(recs) or len(got) != len(recs):
         raise PropertyViolation("count", "wrote %d records, natoms=%r, read %d" % (len(recs), natoms, len(got)))
     big_number = False
